@@ -17,6 +17,14 @@
 #include <glm/gtx/component_wise.hpp>
 #include <glm/gtc/type_precision.hpp>
 using namespace vh;
+// -DC01_ALIGNED (intrinsic builds): the three qualifiers are the aligned ones, so the vector side runs GLM's SIMD kernels
+#ifdef C01_ALIGNED
+static constexpr glm::qualifier QH = glm::aligned_highp, QM = glm::aligned_mediump, QL = glm::aligned_lowp;
+#define C01_CFG "simd"
+#else
+static constexpr glm::qualifier QH = glm::packed_highp, QM = glm::packed_mediump, QL = glm::packed_lowp;
+#define C01_CFG "pure"
+#endif
 static bool g_thorough = false;
 static size_t g_reps = 36;     // windows per (function, shape) in the quick tier; 'small' mode (cross-configuration runs) uses fewer
 static Rng* g_rng = nullptr;
@@ -25,7 +33,7 @@ template<class X> struct is_vec : std::false_type {};
 template<glm::length_t L, class T, glm::qualifier Q> struct is_vec<glm::vec<L, T, Q>> : std::true_type {};
 template<glm::length_t L, class T, glm::qualifier Q> constexpr int veclen(glm::vec<L, T, Q> const*) { return int(L); }
 template<class X> auto comp(X const& x, int i) { if constexpr (is_vec<X>::value) return x[i]; else return x; }
-template<glm::qualifier Q> const char* qname() { return Q == glm::highp ? "highp" : Q == glm::mediump ? "mediump" : "lowp"; }
+template<glm::qualifier Q> const char* qname() { return Q == QH ? "highp" : Q == QM ? "mediump" : "lowp"; }
 template<class X> void put_arg(Ev& e, X const& x) { e.arg(x); }
 
 // f applied to vectors (and broadcast scalars) and, component by component, to scalars
@@ -35,7 +43,7 @@ void lift(const char* fname, const char* kind, F fn, A const&... a) {
     typedef decltype(r) RV; typedef typename RV::value_type RT; constexpr int L = veclen(static_cast<RV const*>(nullptr));
     glm::vec<L, RT, Q> s;
     for (int i = 0; i < L; ++i) s[i] = RT(fn(comp(a, i)...));
-    Ev e("lift"); e.str("f", fname).str("t", TI<T>::code()).str("q", qname<Q>()).num("n", L).str("k", kind);
+    Ev e("lift"); e.str("cfg", C01_CFG).str("f", fname).str("t", TI<T>::code()).str("q", qname<Q>()).num("n", L).str("k", kind);
     (put_arg(e, a), ...);
     e.val("s", s).res(r).emit();
 }
@@ -70,12 +78,12 @@ template<class T, class B> void sweep(size_t nvals, B body) {
     size_t step = std::max<size_t>(1, nvals / reps);
     for (size_t k = 0; k < nvals; k += step) {
         switch (k / step % 3) {
-            case 0: body(std::integral_constant<int, 1>(), std::integral_constant<glm::qualifier, glm::highp>(), k); body(std::integral_constant<int, 4>(), std::integral_constant<glm::qualifier, glm::mediump>(), k + 1);
-                    body(std::integral_constant<int, 2>(), std::integral_constant<glm::qualifier, glm::lowp>(), k + 2); body(std::integral_constant<int, 3>(), std::integral_constant<glm::qualifier, glm::highp>(), k + 3); break;
-            case 1: body(std::integral_constant<int, 2>(), std::integral_constant<glm::qualifier, glm::highp>(), k); body(std::integral_constant<int, 1>(), std::integral_constant<glm::qualifier, glm::mediump>(), k + 1);
-                    body(std::integral_constant<int, 3>(), std::integral_constant<glm::qualifier, glm::lowp>(), k + 2); body(std::integral_constant<int, 4>(), std::integral_constant<glm::qualifier, glm::highp>(), k + 3); break;
-            default: body(std::integral_constant<int, 3>(), std::integral_constant<glm::qualifier, glm::mediump>(), k); body(std::integral_constant<int, 4>(), std::integral_constant<glm::qualifier, glm::lowp>(), k + 1);
-                    body(std::integral_constant<int, 1>(), std::integral_constant<glm::qualifier, glm::lowp>(), k + 2); body(std::integral_constant<int, 2>(), std::integral_constant<glm::qualifier, glm::mediump>(), k + 3); break;
+            case 0: body(std::integral_constant<int, 1>(), std::integral_constant<glm::qualifier, QH>(), k); body(std::integral_constant<int, 4>(), std::integral_constant<glm::qualifier, QM>(), k + 1);
+                    body(std::integral_constant<int, 2>(), std::integral_constant<glm::qualifier, QL>(), k + 2); body(std::integral_constant<int, 3>(), std::integral_constant<glm::qualifier, QH>(), k + 3); break;
+            case 1: body(std::integral_constant<int, 2>(), std::integral_constant<glm::qualifier, QH>(), k); body(std::integral_constant<int, 1>(), std::integral_constant<glm::qualifier, QM>(), k + 1);
+                    body(std::integral_constant<int, 3>(), std::integral_constant<glm::qualifier, QL>(), k + 2); body(std::integral_constant<int, 4>(), std::integral_constant<glm::qualifier, QH>(), k + 3); break;
+            default: body(std::integral_constant<int, 3>(), std::integral_constant<glm::qualifier, QM>(), k); body(std::integral_constant<int, 4>(), std::integral_constant<glm::qualifier, QL>(), k + 1);
+                    body(std::integral_constant<int, 1>(), std::integral_constant<glm::qualifier, QL>(), k + 2); body(std::integral_constant<int, 2>(), std::integral_constant<glm::qualifier, QM>(), k + 3); break;
         }
     }
 }
@@ -93,10 +101,10 @@ template<int K, class T, class F> void bin(const char* f, std::vector<T> const& 
         if constexpr ((K & BVS) != 0) lift<T, Q>(f, "vs", fn, a, vb[(k + 2) % vb.size()]);
         if constexpr ((K & BSV) != 0) lift<T, Q>(f, "sv", fn, va[(k + 5) % va.size()], b);
         if constexpr ((K & BV1) != 0) { glm::vec<1, T, Q> b1(vb[(k + 4) % vb.size()]); auto r = fn(a, b1); typedef decltype(r) RV; glm::vec<L, typename RV::value_type, Q> s; for (int i = 0; i < L; ++i) s[i] = typename RV::value_type(fn(a[i], b1.x));
-            Ev e("lift"); e.str("f", f).str("t", TI<T>::code()).str("q", qname<Q>()).num("n", L).str("k", "vv1"); e.arg(a).arg(b1).val("s", s).res(r).emit(); }
+            Ev e("lift"); e.str("cfg", C01_CFG).str("f", f).str("t", TI<T>::code()).str("q", qname<Q>()).num("n", L).str("k", "vv1"); e.arg(a).arg(b1).val("s", s).res(r).emit(); }
         // ... and with the vec1 FIRST (vec1 op vecL is a separate overload of every operator): first operand from va, second from vb as before
         if constexpr ((K & BV1) != 0) { glm::vec<1, T, Q> a1(va[(k + 6) % va.size()]); auto r = fn(a1, b); typedef decltype(r) RV; glm::vec<L, typename RV::value_type, Q> s; for (int i = 0; i < L; ++i) s[i] = typename RV::value_type(fn(a1.x, b[i]));
-            Ev e("lift"); e.str("f", f).str("t", TI<T>::code()).str("q", qname<Q>()).num("n", L).str("k", "v1v"); e.arg(a1).arg(b).val("s", s).res(r).emit(); }
+            Ev e("lift"); e.str("cfg", C01_CFG).str("f", f).str("t", TI<T>::code()).str("q", qname<Q>()).num("n", L).str("k", "v1v"); e.arg(a1).arg(b).val("s", s).res(r).emit(); }
     });
 }
 enum { VVV = 1, VSS = 2, VVS = 4, SSV = 8 };
@@ -153,13 +161,13 @@ template<class T> void float_funcs() {
     // out-parameter functions: modf / frexp / ldexp (hand-written per-length bodies in func_common.inl)
     sweep<T>(M.size(), [&](auto lt, auto qt, size_t k) { LQ(lt, qt); auto a = win<L, T, Q>(M, k);
         { glm::vec<L, T, Q> ip(T(77)); glm::vec<L, T, Q> r = glm::modf(a, ip); glm::vec<L, T, Q> s, si; for (int i = 0; i < L; ++i) { T t = T(55); s[i] = glm::modf(a[i], t); si[i] = t; }
-          Ev e("lift"); e.str("f", "modf").str("t", TI<T>::code()).str("q", qname<Q>()).num("n", L).str("k", "v"); e.arg(a).val("s", s).res(r).emit();
-          Ev e2("lift"); e2.str("f", "modf.i").str("t", TI<T>::code()).str("q", qname<Q>()).num("n", L).str("k", "v"); e2.arg(a).val("s", si).res(ip).emit(); }
+          Ev e("lift"); e.str("cfg", C01_CFG).str("f", "modf").str("t", TI<T>::code()).str("q", qname<Q>()).num("n", L).str("k", "v"); e.arg(a).val("s", s).res(r).emit();
+          Ev e2("lift"); e2.str("cfg", C01_CFG).str("f", "modf.i").str("t", TI<T>::code()).str("q", qname<Q>()).num("n", L).str("k", "v"); e2.arg(a).val("s", si).res(ip).emit(); }
         { glm::vec<L, int, Q> ex(9999); glm::vec<L, T, Q> r = glm::frexp(a, ex); glm::vec<L, T, Q> s; glm::vec<L, int, Q> se; for (int i = 0; i < L; ++i) { int t = 4444; s[i] = glm::frexp(a[i], t); se[i] = t; }
-          Ev e("lift"); e.str("f", "frexp").str("t", TI<T>::code()).str("q", qname<Q>()).num("n", L).str("k", "v"); e.arg(a).val("s", s).res(r).emit();
-          Ev e2("lift"); e2.str("f", "frexp.e").str("t", TI<T>::code()).str("q", qname<Q>()).num("n", L).str("k", "v"); e2.arg(a).val("s", se).res(ex).emit();
+          Ev e("lift"); e.str("cfg", C01_CFG).str("f", "frexp").str("t", TI<T>::code()).str("q", qname<Q>()).num("n", L).str("k", "v"); e.arg(a).val("s", s).res(r).emit();
+          Ev e2("lift"); e2.str("cfg", C01_CFG).str("f", "frexp.e").str("t", TI<T>::code()).str("q", qname<Q>()).num("n", L).str("k", "v"); e2.arg(a).val("s", se).res(ex).emit();
           glm::vec<L, int, Q> sh; for (int i = 0; i < L; ++i) sh[i] = int((k + size_t(i) * 3) % 21) - 10; glm::vec<L, T, Q> r2 = glm::ldexp(a, sh); glm::vec<L, T, Q> s2; for (int i = 0; i < L; ++i) s2[i] = glm::ldexp(a[i], sh[i]);
-          Ev e3("lift"); e3.str("f", "ldexp").str("t", TI<T>::code()).str("q", qname<Q>()).num("n", L).str("k", "vv"); e3.arg(a).arg(sh).val("s", s2).res(r2).emit(); } });
+          Ev e3("lift"); e3.str("cfg", C01_CFG).str("f", "ldexp").str("t", TI<T>::code()).str("q", qname<Q>()).num("n", L).str("k", "vv"); e3.arg(a).arg(sh).val("s", s2).res(r2).emit(); } });
     // exponential (single library call each)
     bin<0, T>("pow", P, M, F2(pow)); un<T>("exp", M, F1(exp)); un<T>("log", P, F1(log)); un<T>("exp2", M, F1(exp2)); un<T>("log2", P, F1(log2)); un<T>("sqrt", P, F1(sqrt)); un<T>("inversesqrt", P, F1(inversesqrt));
     un<T>("sqrt", S, F1(sqrt)); un<T>("exp", S, F1(exp));
@@ -183,19 +191,19 @@ template<class T> void float_funcs() {
         lift<T, Q>("mul", "v*=v", [](auto x, auto const& y) { x *= y; return x; }, a, b); lift<T, Q>("div", "v/=s", [](auto x, auto const& y) { x /= y; return x; }, a, sc);
         lift<T, Q>("inc", "++v", [](auto x) { ++x; return x; }, a); lift<T, Q>("dec", "v--", [](auto x) { x--; return x; }, a);
         // aliasing: the right operand is a component of the left one (the scalar is taken by value, so every component must see the old v.x)
-        { auto x = a; x += x.x; glm::vec<L, T, Q> s; for (int i = 0; i < L; ++i) s[i] = a[i] + a[0]; T a0 = a[0]; Ev e("lift"); e.str("f", "add").str("t", TI<T>::code()).str("q", qname<Q>()).num("n", L).str("k", "v+=v.x"); e.arg(a).arg(a0).val("s", s).res(x).emit(); }
-        { auto x = a; x *= x[L - 1]; glm::vec<L, T, Q> s; for (int i = 0; i < L; ++i) s[i] = a[i] * a[L - 1]; T al = a[L - 1]; Ev e("lift"); e.str("f", "mul").str("t", TI<T>::code()).str("q", qname<Q>()).num("n", L).str("k", "v*=v.last"); e.arg(a).arg(al).val("s", s).res(x).emit(); } });
+        { auto x = a; x += x.x; glm::vec<L, T, Q> s; for (int i = 0; i < L; ++i) s[i] = a[i] + a[0]; T a0 = a[0]; Ev e("lift"); e.str("cfg", C01_CFG).str("f", "add").str("t", TI<T>::code()).str("q", qname<Q>()).num("n", L).str("k", "v+=v.x"); e.arg(a).arg(a0).val("s", s).res(x).emit(); }
+        { auto x = a; x *= x[L - 1]; glm::vec<L, T, Q> s; for (int i = 0; i < L; ++i) s[i] = a[i] * a[L - 1]; T al = a[L - 1]; Ev e("lift"); e.str("cfg", C01_CFG).str("f", "mul").str("t", TI<T>::code()).str("q", qname<Q>()).num("n", L).str("k", "v*=v.last"); e.arg(a).arg(al).val("s", s).res(x).emit(); } });
     // matrix versions act per element
     for (int s = 0; s < (g_thorough ? 40 : 8); ++s) {
         glm::mat<3, 2, T, glm::defaultp> a, b; glm::mat<4, 4, T, glm::defaultp> c, d; glm::mat<3, 3, T, glm::defaultp> g, h;
         for (int i = 0; i < 6; ++i) { a[i / 2][i % 2] = S[(size_t(s) * 7 + i) % S.size()]; b[i / 2][i % 2] = M[(size_t(s) * 5 + i) % M.size()]; } for (int i = 0; i < 9; ++i) { g[i / 3][i % 3] = M[(size_t(s) * 3 + i) % M.size()]; h[i / 3][i % 3] = M[(size_t(s) * 11 + i + 2) % M.size()]; }
         for (int i = 0; i < 16; ++i) { c[i / 4][i % 4] = M[(size_t(s) * 3 + i) % M.size()]; d[i / 4][i % 4] = M[(size_t(s) * 13 + i + 5) % M.size()]; }
         T t = U[size_t(s) % U.size()];
-        { auto r = glm::abs(a); decltype(r) sres; for (int i = 0; i < 6; ++i) sres[i / 2][i % 2] = glm::abs(a[i / 2][i % 2]); Ev e("lift"); e.str("f", "abs").str("t", TI<T>::code()).str("q", "highp").num("n", 6).str("k", "m"); e.arg(a).val("s", sres).res(r).emit(); }
-        { auto r = glm::abs(c); decltype(r) sres; for (int i = 0; i < 16; ++i) sres[i / 4][i % 4] = glm::abs(c[i / 4][i % 4]); Ev e("lift"); e.str("f", "abs").str("t", TI<T>::code()).str("q", "highp").num("n", 16).str("k", "m"); e.arg(c).val("s", sres).res(r).emit(); }
-        { auto r = glm::mix(c, d, t); decltype(r) sres; for (int i = 0; i < 16; ++i) sres[i / 4][i % 4] = glm::mix(c[i / 4][i % 4], d[i / 4][i % 4], t); Ev e("lift"); e.str("f", "mix").str("t", TI<T>::code()).str("q", "highp").num("n", 16).str("k", "mms"); e.arg(c).arg(d).arg(t).val("s", sres).res(r).emit(); }
+        { auto r = glm::abs(a); decltype(r) sres; for (int i = 0; i < 6; ++i) sres[i / 2][i % 2] = glm::abs(a[i / 2][i % 2]); Ev e("lift"); e.str("cfg", C01_CFG).str("f", "abs").str("t", TI<T>::code()).str("q", "highp").num("n", 6).str("k", "m"); e.arg(a).val("s", sres).res(r).emit(); }
+        { auto r = glm::abs(c); decltype(r) sres; for (int i = 0; i < 16; ++i) sres[i / 4][i % 4] = glm::abs(c[i / 4][i % 4]); Ev e("lift"); e.str("cfg", C01_CFG).str("f", "abs").str("t", TI<T>::code()).str("q", "highp").num("n", 16).str("k", "m"); e.arg(c).val("s", sres).res(r).emit(); }
+        { auto r = glm::mix(c, d, t); decltype(r) sres; for (int i = 0; i < 16; ++i) sres[i / 4][i % 4] = glm::mix(c[i / 4][i % 4], d[i / 4][i % 4], t); Ev e("lift"); e.str("cfg", C01_CFG).str("f", "mix").str("t", TI<T>::code()).str("q", "highp").num("n", 16).str("k", "mms"); e.arg(c).arg(d).arg(t).val("s", sres).res(r).emit(); }
         { glm::mat<3, 3, T, glm::defaultp> w; for (int i = 0; i < 9; ++i) w[i / 3][i % 3] = U[(size_t(s) + i) % U.size()]; auto r = glm::mix(g, h, w); decltype(r) sres; for (int i = 0; i < 9; ++i) sres[i / 3][i % 3] = glm::mix(g[i / 3][i % 3], h[i / 3][i % 3], w[i / 3][i % 3]);
-          Ev e("lift"); e.str("f", "mix").str("t", TI<T>::code()).str("q", "highp").num("n", 9).str("k", "mmm"); e.arg(g).arg(h).arg(w).val("s", sres).res(r).emit(); }
+          Ev e("lift"); e.str("cfg", C01_CFG).str("f", "mix").str("t", TI<T>::code()).str("q", "highp").num("n", 9).str("k", "mmm"); e.arg(g).arg(h).arg(w).val("s", sres).res(r).emit(); }
     }
     // reductions of gtx/component_wise: folds of the scalar operator over the components in index order
     sweep<T>(M.size(), [&](auto lt, auto qt, size_t k) { LQ(lt, qt); auto a = win<L, T, Q>(M, k); auto b = win<L, T, Q>(S, k);
@@ -235,11 +243,11 @@ static void bool_funcs() {
     for (int m = 0; m < 16; ++m) { glm::bvec4 b4(m & 1, m & 2, m & 4, m & 8); glm::bvec3 b3(b4); glm::bvec2 b2(b4); glm::bvec1 b1(b4.x);
 #define BV(V, L_) { bool any = glm::any(V), all = glm::all(V); auto nt = glm::not_(V); bool sa = false, sl = true; decltype(nt) sn; for (int i = 0; i < L_; ++i) { sa = sa || V[i]; sl = sl && V[i]; sn[i] = !V[i]; } \
         Ev e("fold"); e.str("f", "any").str("t", "b").str("q", "highp").num("n", L_); e.arg(V).val("s", sa).res(any).emit(); Ev e2("fold"); e2.str("f", "all").str("t", "b").str("q", "highp").num("n", L_); e2.arg(V).val("s", sl).res(all).emit(); \
-        Ev e3("lift"); e3.str("f", "not_").str("t", "b").str("q", "highp").num("n", L_).str("k", "v"); e3.arg(V).val("s", sn).res(nt).emit(); }
+        Ev e3("lift"); e3.str("cfg", C01_CFG).str("f", "not_").str("t", "b").str("q", "highp").num("n", L_).str("k", "v"); e3.arg(V).val("s", sn).res(nt).emit(); }
         BV(b4, 4) BV(b3, 3) BV(b2, 2) BV(b1, 1)
 #undef BV
         glm::bvec4 c4((m * 7) & 1, (m * 7) & 2, (m * 7) & 4, (m * 7) & 8); auto a = b4 && c4, o = b4 || c4; glm::bvec4 sa, so; for (int i = 0; i < 4; ++i) { sa[i] = b4[i] && c4[i]; so[i] = b4[i] || c4[i]; }
-        Ev e("lift"); e.str("f", "land").str("t", "b").str("q", "highp").num("n", 4).str("k", "vv"); e.arg(b4).arg(c4).val("s", sa).res(a).emit(); Ev e2("lift"); e2.str("f", "lor").str("t", "b").str("q", "highp").num("n", 4).str("k", "vv"); e2.arg(b4).arg(c4).val("s", so).res(o).emit(); }
+        Ev e("lift"); e.str("cfg", C01_CFG).str("f", "land").str("t", "b").str("q", "highp").num("n", 4).str("k", "vv"); e.arg(b4).arg(c4).val("s", sa).res(a).emit(); Ev e2("lift"); e2.str("cfg", C01_CFG).str("f", "lor").str("t", "b").str("q", "highp").num("n", 4).str("k", "vv"); e2.arg(b4).arg(c4).val("s", so).res(o).emit(); }
 }
 
 static void body(int argc, char** argv) {
